@@ -11,6 +11,10 @@ rogw/tranp/lang/sequence.py (never imports them) and writes `lean/Tranp/Generate
 * `viaExpr`                         — the expression that picks the `via` of a restored Reflection
 * `sortCall`                        — the call that orders the index paths in `_deserialize_attrs`
 * `expandGuard`                     — the condition under which `seqs.expand` descends into `iter_key`
+* `orderLoopTests` / `orderWalkTests` / `orderWalkWrites` / `orderWalkCalls` / `orderWalkLoops`
+                                    — db.py `_order_keys` / `_order_keys_recursive`: every test in source order (the module filter, the
+                                      cycle guard `key not in resolving`, the final `key not in orders`), the writes to `resolving` / `orders`,
+                                      the recursive calls and what the two loops iterate over
 
 `C14.row_schema_generated` (Props/C14.lean) states that these are what the model implements: every key written is read back and no
 other, and each expression is the one the model's definition cites. A row key added, dropped or renamed, a second `return`, a row
@@ -28,6 +32,7 @@ from harness.common import GENERATED_DIR, REPO, write_if_changed
 OUT = os.path.join(GENERATED_DIR, 'SymbolRows.lean')
 SERIALIZER = 'rogw/tranp/semantics/reflection/serializer.py'
 SEQUENCE = 'rogw/tranp/lang/sequence.py'
+DB = 'rogw/tranp/semantics/reflection/db.py'
 
 
 class TranslateError(Exception):
@@ -171,9 +176,30 @@ def scan_expand(tree: ast.Module) -> dict[str, Any]:
 	return {'expandGuard': ast.unparse(guards[0].test), 'expandDispatch': [ast.unparse(n.test) for n in dispatch]}
 
 
+def scan_order(tree: ast.Module) -> dict[str, Any]:
+	"""the tests of the export-order walk (db.py `_order_keys`, `_order_keys_recursive`), in source order, and what the walk does
+	with `resolving` (the set of type keys whose own entry is being expanded)"""
+	out: dict[str, Any] = {}
+	for name, field in (('_order_keys', 'orderLoopTests'), ('_order_keys_recursive', 'orderWalkTests')):
+		fn = method(tree, 'SymbolDB', name, DB)
+		tests = [n for n in ast.walk(fn) if isinstance(n, (ast.If, ast.IfExp, ast.While))]
+		tests.sort(key=lambda n: (n.lineno, n.col_offset))
+		out[field] = [ast.unparse(n.test) for n in tests]
+		if any(isinstance(n, (ast.ListComp, ast.SetComp, ast.DictComp, ast.GeneratorExp, ast.Try, ast.Break, ast.Continue)) or (isinstance(n, ast.Return) and n.value is not None) for n in ast.walk(fn) if n is not fn) and name == '_order_keys_recursive':
+			raise TranslateError(f'{DB}:{fn.lineno}: {name} has a comprehension / try / break / continue / value return (shape the model does not have)')
+	fn = method(tree, 'SymbolDB', '_order_keys_recursive', DB)
+	uses: list[str] = []
+	for n in sorted((n for n in ast.walk(fn) if isinstance(n, ast.Call) and isinstance(n.func, ast.Attribute) and isinstance(n.func.value, ast.Name) and n.func.value.id in ('resolving', 'orders')), key=lambda n: (n.lineno, n.col_offset)):
+		uses.append(ast.unparse(n))
+	out['orderWalkWrites'] = uses
+	out['orderWalkCalls'] = [ast.unparse(n) for n in sorted((n for n in ast.walk(fn) if isinstance(n, ast.Call) and isinstance(n.func, ast.Attribute) and n.func.attr == '_order_keys_recursive'), key=lambda n: (n.lineno, n.col_offset))]
+	out['orderWalkLoops'] = [ast.unparse(n.iter) for n in sorted((n for n in ast.walk(fn) if isinstance(n, ast.For)), key=lambda n: (n.lineno, n.col_offset))]
+	return out
+
+
 def generate() -> list[dict[str, Any]]:
 	ser = parse(SERIALIZER)
-	rec: dict[str, Any] = {**scan_serialize(ser), **scan_deserialize(ser), **scan_attrs(ser), **scan_expand(parse(SEQUENCE))}
+	rec: dict[str, Any] = {**scan_serialize(ser), **scan_deserialize(ser), **scan_attrs(ser), **scan_expand(parse(SEQUENCE)), **scan_order(parse(DB))}
 
 	def names(xs: list[str]) -> str:
 		return '[' + ', '.join(lean_chars(x) for x in xs) + ']'
@@ -204,6 +230,11 @@ def generate() -> list[dict[str, Any]]:
 		f'def sortCall : Str := {lean_chars(rec["sortCall"])}',
 		f'def expandGuard : Str := {lean_chars(rec["expandGuard"])}',
 		f'def expandDispatch : List Str := {names(rec["expandDispatch"])}',
+		f'def orderLoopTests : List Str := {names(rec["orderLoopTests"])}',
+		f'def orderWalkTests : List Str := {names(rec["orderWalkTests"])}',
+		f'def orderWalkWrites : List Str := {names(rec["orderWalkWrites"])}',
+		f'def orderWalkCalls : List Str := {names(rec["orderWalkCalls"])}',
+		f'def orderWalkLoops : List Str := {names(rec["orderWalkLoops"])}',
 		'',
 		'end Tranp.Generated.SymbolRows',
 		'',
